@@ -251,3 +251,8 @@ def describe(plan):
     e = plan["script"][0]
     return {"segments": [[s[0], (s[1] if len(s[1]) <= 80 else s[1][:40] + "...(%d bytes)" % (len(s[1]) // 2))] for s in e["stream"]][:14],
             "segmentation_mode": plan.get("mode"), "chunk_sizes": (e.get("chunks") or [])[:16]}
+
+
+def seam_check():
+    from .common import seam_net, seam_clock, seam_fs
+    return seam_net(['waveshare'])
